@@ -35,6 +35,7 @@ pub struct Swarm {
     pub w_receivership: u32,
     pub w_deleverage: u32,
     pub w_make_unhealthy: u32,
+    pub w_oracle_fault: u32,
     pub fault_oracle_skip: u32, // per-mille: publisher skips a bank
     pub fault_cpi_fail: u32,    // per-mille: inject CPI failure in a tx
     pub fault_delay: u32,       // per-mille: deliver later
@@ -44,6 +45,14 @@ pub struct Swarm {
 }
 
 impl Swarm {
+    pub fn ora(rng: &mut Rng, faults: bool) -> Self {
+        let mut s = Self::mkt(rng, faults);
+        s.w_oracle_fault = rng.range(10, 30) as u32;
+        s.w_borrow_boundary = rng.range(6, 16) as u32;
+        s.w_hunter = rng.range(6, 16) as u32;
+        s.w_oracle = rng.range(2, 8) as u32;
+        s
+    }
     pub fn tx(rng: &mut Rng, faults: bool) -> Self {
         let mut s = Self::mkt(rng, faults);
         s.w_flashloan = rng.range(5, 25) as u32;
@@ -78,6 +87,7 @@ impl Swarm {
             w_receivership: 0,
             w_deleverage: 0,
             w_make_unhealthy: r(0, 3),
+            w_oracle_fault: 0,
             fault_oracle_skip: if faults { r(0, 150) } else { 0 },
             fault_cpi_fail: if faults { r(0, 40) } else { 0 },
             fault_delay: if faults { r(0, 100) } else { 0 },
@@ -935,6 +945,7 @@ pub fn step_mkt(sim: &mut Sim, ctx: &mut Ctx) {
         s.w_receivership,
         s.w_deleverage,
         s.w_make_unhealthy,
+        s.w_oracle_fault,
     ];
     let choice = ctx.rng.pick_weighted(&weights);
     let tx: Option<Tx> = match choice {
@@ -996,10 +1007,11 @@ pub fn step_mkt(sim: &mut Sim, ctx: &mut Ctx) {
         17 => crate::actors_tx::act_flashloan(sim, ctx),
         18 => crate::actors_tx::act_bracket(sim, ctx, crate::actors_tx::BracketKind::Liquidation),
         19 => crate::actors_tx::act_bracket(sim, ctx, crate::actors_tx::BracketKind::Deleverage),
-        _ => {
+        20 => {
             crate::actors_tx::act_make_unhealthy(sim, ctx);
             None
         }
+        _ => crate::actors_ora::act_oracle_fault(sim, ctx),
     };
     if sim.violated() && sim.stop_on_violation {
         return;
